@@ -140,8 +140,23 @@ def probe_completed_by():
     return None
 
 
+def probe_completing_task_runs_to_its_end():
+    """completed-by: a client of the task that completes its parent ignores the shared completion flag (a faster client of the same task on
+    this worker may have set it) and runs until its own schedule / runner is done"""
+    from C04 import run
+
+    times, sts = [0, 0, 0, 0, 0], [0.01] * 5
+    _, issued, samples = run(times, sts, complete_preset=True, completes_parent=True)
+    if len(issued) != len(times):
+        return f"a client of the completing task issued {len(issued)} of its {len(times)} requests because the shared completion flag was already set"
+    _, issued, _ = run(times, sts, complete_preset=True, completes_parent=False)
+    if len(issued) != 1:
+        return f"a client of an ordinary task issued {len(issued)} requests although its parallel element was already completed (it should stop after the request in flight)"
+    return None
+
+
 def main(rec):
-    for f in (probe_barrier, probe_completed_by, probe_worker_progress, probe_sampler_handover):
+    for f in (probe_completing_task_runs_to_its_end, probe_barrier, probe_completed_by, probe_worker_progress, probe_sampler_handover):
         try:
             v = f()
         except Exception as ex:  # noqa
